@@ -34,6 +34,51 @@ pub struct Scenario {
     /// actions: "commit", "begin", "read", "close".  Empty = free exploration.
     #[serde(default)]
     pub script: Vec<(usize, String)>,
+    /// commits touch different buckets / leaves in turn, and a multi-page value is appended at the end of
+    /// the file by one commit and deleted by the next (instead of every commit rewriting the same leaf)
+    #[serde(default)]
+    pub varied: bool,
+    /// the set-up ends with a growing commit whose remap fails (`mmap` -> ENOMEM through the shim): the file is
+    /// extended, the shared map is not, and the first commit that needs the new pages maps the file again
+    /// without extending it (the path added by the F15 repair) - under the schedules, with readers open
+    #[serde(default)]
+    pub failed_remap: bool,
+}
+
+/// what commit number `c` of the C04 writer chain does: (bucket, key, Some(value) = put / None = delete)
+fn commit_ops(sc: &Scenario, c: usize) -> Vec<(&'static str, Vec<u8>, Option<Vec<u8>>)> {
+    let mut v: Vec<(&'static str, Vec<u8>, Option<Vec<u8>>)> = Vec::new();
+    v.push(("d", b"version".to_vec(), Some((c as u64).to_be_bytes().to_vec())));
+    if sc.varied {
+        match c % 3 {
+            1 => {
+                v.push(("e", b"blob".to_vec(), Some(value(c, 777, 5 * sc.pagesize as usize + 100))));
+                v.push(("e", key(c % 6), Some(value(c, c % 6, 300))));
+            }
+            2 => {
+                v.push(("e", b"blob".to_vec(), None));
+                v.push(("e", key((c + 3) % 6), Some(value(c, (c + 3) % 6, 300))));
+            }
+            _ => {
+                for i in 0..sc.keys {
+                    v.push(("d", key(i), Some(value(c, i, 90 + c))));
+                }
+            }
+        }
+        return v;
+    }
+    for i in 0..sc.keys {
+        v.push(("d", key(i), Some(value(c, i, 90 + c))));
+    }
+    if c % 2 == 0 {
+        v.push(("d", key(c % sc.keys), None));
+    } else {
+        v.push(("d", key(100 + c), Some(value(c, 100 + c, 40))));
+    }
+    if sc.grow_at == c {
+        v.push(("d", b"big".to_vec(), Some(value(c, 999, 1 << 20))));
+    }
+    v
 }
 
 #[derive(Clone, Debug)]
@@ -43,7 +88,7 @@ enum Ev {
     ReaderDump { seq: u64, digest: u64, counter_ok: Option<bool>, detail: String },
     ReaderClose { seq: u64 },
     WriterBeginCall { seq: u64 },
-    WriterBeginRet { seq: u64, tx_id: u64, free: Vec<u64> },
+    WriterBeginRet { seq: u64, tx_id: u64, free: Vec<u64>, num_pages: u64 },
     CommitCall { seq: u64, n: usize },
     CommitRet { seq: u64, n: usize, ok: bool, reach: Option<(u64, BTreeSet<u64>)>, err: String },
     WriterOverlap { seq: u64, inside: i32 },
@@ -73,19 +118,24 @@ fn c04_states(sc: &Scenario) -> Vec<MBucket> {
     }
     let _ = m.at_mut(&[b"d".to_vec()]).unwrap().put(b"version", &0u64.to_be_bytes());
     v.push(m.clone());
+    if sc.varied {
+        let _ = m.create_bucket(b"e");
+        for i in 0..6 {
+            let _ = m.at_mut(&[b"e".to_vec()]).unwrap().put(&key(i), &value(0, i, 300));
+        }
+        v[0] = m.clone();
+    }
     for c in 1..=sc.commits {
-        let b = m.at_mut(&[b"d".to_vec()]).unwrap();
-        let _ = b.put(b"version", &(c as u64).to_be_bytes());
-        for i in 0..sc.keys {
-            let _ = b.put(&key(i), &value(c, i, 90 + c));
-        }
-        if c % 2 == 0 {
-            let _ = b.delete(&key(c % sc.keys));
-        } else {
-            let _ = b.put(&key(100 + c), &value(c, 100 + c, 40));
-        }
-        if sc.grow_at == c {
-            let _ = b.put(b"big", &value(c, 999, 1 << 20));
+        for (bk, k, val) in commit_ops(sc, c) {
+            let b = m.at_mut(&[bk.as_bytes().to_vec()]).unwrap();
+            match val {
+                Some(x) => {
+                    let _ = b.put(&k, &x);
+                }
+                None => {
+                    let _ = b.delete(&k);
+                }
+            }
         }
         v.push(m.clone());
     }
@@ -103,12 +153,33 @@ fn prepare(sc: &Scenario, path: &std::path::Path) -> Result<DB, String> {
                 b.put(key(i), value(0, i, 90)).map_err(|e| e.to_string())?;
             }
             b.put("version", 0u64.to_be_bytes()).map_err(|e| e.to_string())?;
+            if sc.varied {
+                let e = tx.create_bucket("e").map_err(|e| e.to_string())?;
+                for i in 0..6 {
+                    e.put(key(i), value(0, i, 300)).map_err(|x| x.to_string())?;
+                }
+            }
         } else {
             b.put("counter", 0u64.to_be_bytes()).map_err(|e| e.to_string())?;
         }
         tx.commit().map_err(|e| e.to_string())?;
     }
-    // one more no-op-ish commit and back, so that both header slots are in use and the free list is not empty
+    if sc.failed_remap {
+        let vio = crate::vio::Vio::get().ok_or_else(|| "set-up: the I/O shim is not loaded".to_string())?;
+        vio.reset();
+        vio.arm(crate::vio::CLASS_MMAP, 0, libc::ENOMEM, 0);
+        let r = (|| -> Result<(), jammdb::Error> {
+            let tx = db.tx(true)?;
+            let b = tx.get_bucket("d")?;
+            b.put("junk", vec![3u8; 1 << 20])?;
+            tx.commit()
+        })();
+        let fired = vio.stats().fired;
+        vio.reset();
+        if r.is_ok() || fired == 0 {
+            return Err(format!("set-up: the injected mmap failure did not make the growing commit fail (fired {}, result {:?})", fired, r.map_err(|e| e.to_string())));
+        }
+    }
     Ok(db)
 }
 
@@ -135,23 +206,23 @@ fn c04_writer(db: DB, sc: Scenario, path: std::path::PathBuf, log: Log) -> Box<d
                 }
             };
             let ts = tx.verif_tx_state();
-            log.lock().unwrap().push(Ev::WriterBeginRet { seq: g.tick(), tx_id: ts.tx_id, free: ts.free.clone() });
+            log.lock().unwrap().push(Ev::WriterBeginRet { seq: g.tick(), tx_id: ts.tx_id, free: ts.free.clone(), num_pages: ts.num_pages });
             let c: usize;
             {
                 let b = tx.get_bucket("d").unwrap();
                 // the commit number comes from the database: whichever writer thread runs next extends the chain
                 c = b.get_kv("version").map(|kv| u64::from_be_bytes(kv.value().try_into().unwrap_or([0; 8]))).unwrap_or(0) as usize + 1;
-                b.put("version", (c as u64).to_be_bytes()).unwrap();
-                for i in 0..sc.keys {
-                    b.put(key(i), value(c, i, 90 + c)).unwrap();
-                }
-                if c % 2 == 0 {
-                    let _ = b.delete(key(c % sc.keys));
-                } else {
-                    b.put(key(100 + c), value(c, 100 + c, 40)).unwrap();
-                }
-                if sc.grow_at == c {
-                    b.put("big", value(c, 999, 1 << 20)).unwrap();
+                let e = if sc.varied { tx.get_bucket("e").ok() } else { None };
+                for (bk, k, val) in commit_ops(&sc, c) {
+                    let target = if bk == "e" { e.as_ref().unwrap() } else { &b };
+                    match val {
+                        Some(x) => {
+                            target.put(k, x).unwrap();
+                        }
+                        None => {
+                            let _ = target.delete(k);
+                        }
+                    }
                 }
             }
             g.point(sched::P_BEFORE_COMMIT);
@@ -195,6 +266,14 @@ fn c04_reader(db: DB, sc: Scenario, log: Log) -> Box<dyn FnOnce(Arc<Inner>) + Se
                 log.lock().unwrap().push(Ev::Panic { seq: g.tick(), msg: format!("reader panicked at {}:{}: {}", p.file, p.line, p.msg) });
                 log.lock().unwrap().push(Ev::ReaderClose { seq: g.tick() });
             }
+            // DB::check() is a reader of its own (it also reads its snapshot's free-list page, which no other
+            // reader does): it begins, is preempted and finishes at the same yield points, between the commits
+            g.point(sched::P_STEP);
+            match util::catch(|| db.check()) {
+                Ok(Ok(())) => {}
+                Ok(Err(e)) => log.lock().unwrap().push(Ev::Panic { seq: g.tick(), msg: format!("DB::check() on a reader thread failed: {}", e) }),
+                Err(p) => log.lock().unwrap().push(Ev::Panic { seq: g.tick(), msg: format!("DB::check() on a reader thread panicked at {}:{}: {}", p.file, p.line, p.msg) }),
+            }
         }
     })
 }
@@ -218,19 +297,22 @@ fn scripted_writer(db: DB, sc: Scenario, path: std::path::PathBuf, log: Log) -> 
                 }
             };
             let ts = tx.verif_tx_state();
-            log.lock().unwrap().push(Ev::WriterBeginRet { seq: g.tick(), tx_id: ts.tx_id, free: ts.free.clone() });
+            log.lock().unwrap().push(Ev::WriterBeginRet { seq: g.tick(), tx_id: ts.tx_id, free: ts.free.clone(), num_pages: ts.num_pages });
             let c: usize;
             {
                 let b = tx.get_bucket("d").unwrap();
                 c = b.get_kv("version").map(|kv| u64::from_be_bytes(kv.value().try_into().unwrap_or([0; 8]))).unwrap_or(0) as usize + 1;
-                b.put("version", (c as u64).to_be_bytes()).unwrap();
-                for i in 0..sc.keys {
-                    b.put(key(i), value(c, i, 90 + c)).unwrap();
-                }
-                if c % 2 == 0 {
-                    let _ = b.delete(key(c % sc.keys));
-                } else {
-                    b.put(key(100 + c), value(c, 100 + c, 40)).unwrap();
+                let e = if sc.varied { tx.get_bucket("e").ok() } else { None };
+                for (bk, k, val) in commit_ops(&sc, c) {
+                    let target = if bk == "e" { e.as_ref().unwrap() } else { &b };
+                    match val {
+                        Some(x) => {
+                            target.put(k, x).unwrap();
+                        }
+                        None => {
+                            let _ = target.delete(k);
+                        }
+                    }
                 }
             }
             log.lock().unwrap().push(Ev::CommitCall { seq: g.tick(), n: c });
@@ -308,7 +390,7 @@ fn c09_writer(db: DB, sc: Scenario, w: usize, inside: Arc<AtomicI32>, log: Log) 
                     log.lock().unwrap().push(Ev::WriterOverlap { seq: g.tick(), inside: was + 1 });
                 }
                 let ts = tx.verif_tx_state();
-                log.lock().unwrap().push(Ev::WriterBeginRet { seq: g.tick(), tx_id: ts.tx_id, free: vec![] });
+                log.lock().unwrap().push(Ev::WriterBeginRet { seq: g.tick(), tx_id: ts.tx_id, free: vec![], num_pages: ts.num_pages });
                 let saw;
                 {
                     let b = tx.get_bucket("d").unwrap();
@@ -403,6 +485,7 @@ pub struct St {
     pub free_runs: u64,
     pub final_checks: u64,
     pub exactly_full_starts: u64,
+    pub failed_remap_starts: u64,
     pub check_calls: u64,
     pub distinct: BTreeSet<u64>,
     pub nontrivial: BTreeSet<u64>,
@@ -432,6 +515,9 @@ fn execute(sc: &Scenario, mode: Mode, path: &std::path::Path, st: &mut St) -> Re
                 st.exactly_full_starts += 1;
             }
         }
+    }
+    if sc.failed_remap {
+        st.failed_remap_starts += 1;
     }
     let inside = Arc::new(AtomicI32::new(0));
     let mut roles: Vec<&'static str> = Vec::new();
@@ -571,6 +657,7 @@ fn judge_c04(sc: &Scenario, all: &[(usize, Ev)], g: &Arc<Inner>, n_workers: usiz
         end: u64,
         free: BTreeSet<u64>,
         tx_id: u64,
+        num_pages: u64,
     }
     let mut writers: Vec<WLife> = Vec::new();
     for (_, e) in all {
@@ -593,7 +680,7 @@ fn judge_c04(sc: &Scenario, all: &[(usize, Ev)], g: &Arc<Inner>, n_workers: usiz
                     w.end = *seq;
                 }
             }
-            Ev::WriterBeginRet { seq, tx_id, free } => writers.push(WLife { begin_ret: *seq, end: u64::MAX, free: free.iter().cloned().collect(), tx_id: *tx_id }),
+            Ev::WriterBeginRet { seq, tx_id, free, num_pages } => writers.push(WLife { begin_ret: *seq, end: u64::MAX, free: free.iter().cloned().collect(), tx_id: *tx_id, num_pages: *num_pages }),
             _ => {}
         }
     }
@@ -661,6 +748,15 @@ fn judge_c04(sc: &Scenario, all: &[(usize, Ev)], g: &Arc<Inner>, n_workers: usiz
                                         // (the writer that produced the snapshot naturally owned its pages)
                                         if wl.begin_ret < close && wl.end > *call && wl.tx_id > t {
                                             st.invariant_pairs += 1;
+                                            // pages at or beyond the writer's high-water mark are handed out next when the
+                                            // free set cannot serve a request: none of them may belong to the reader
+                                            if let Some(p) = rs.iter().rev().next().filter(|p| **p >= wl.num_pages) {
+                                                viol.push((
+                                                    "writer-high-water-mark-below-live-reader-snapshot".into(),
+                                                    format!("writer tx {} (alive while the reader was) began with a page count of {}, but page {} belongs to the reader's snapshot (state after commit {}): the next page appended would overwrite it", wl.tx_id, wl.num_pages, p, idx),
+                                                ));
+                                                break;
+                                            }
                                             if let Some(p) = rs.intersection(&wl.free).next() {
                                                 viol.push((
                                                     "free-set-intersects-live-reader-snapshot".into(),
@@ -786,6 +882,27 @@ fn scripted_scenarios(base: &Scenario) -> Vec<Scenario> {
         let commits = sc.iter().filter(|x| x.1 == "commit").count();
         v.push(Scenario { readers: 3, commits, script: sc, keys: 8, ..base.clone() });
     }
+    // commits that touch different buckets in turn (and a multi-page value appended at the end of the file by
+    // one commit, deleted by the next): an old reader, a second one k commits later, both re-read after every
+    // further commit
+    for gap in [1usize, 3, 4, 6] {
+        let mut sc = vec![s(0, "commit"), s(1, "begin")];
+        for _ in 0..gap {
+            sc.push(s(0, "commit"));
+        }
+        sc.push(s(2, "begin"));
+        for _ in 0..5 {
+            sc.push(s(0, "commit"));
+            sc.push(s(1, "read"));
+            sc.push(s(2, "read"));
+        }
+        sc.push(s(1, "close"));
+        sc.push(s(0, "commit"));
+        sc.push(s(2, "read"));
+        sc.push(s(2, "close"));
+        let commits = sc.iter().filter(|x| x.1 == "commit").count();
+        v.push(Scenario { readers: 2, commits, script: sc, keys: 8, varied: true, num_pages: 256, ..base.clone() }); // (pre-sized: in a scripted total order a writer that has to extend the file would wait for the open readers for ever)
+    }
     // two (and three) readers of the SAME snapshot; one closes, the other must stay protected
     for n in [2usize, 3] {
         for first in 1..=n {
@@ -826,6 +943,8 @@ pub fn scenarios(prop: &str, thorough: bool) -> Vec<Scenario> {
         pagesize: 1024,
         num_pages: 64,
         script: vec![],
+        varied: false,
+        failed_remap: false,
     };
     if prop == "C04" {
         let mut v = vec![
@@ -840,6 +959,12 @@ pub fn scenarios(prop: &str, thorough: bool) -> Vec<Scenario> {
             // the set-up commit leaves the 7-page file full to its last page: the first writer begins on an
             // exactly full file (and its commit extends it) while readers are open on other threads
             Scenario { readers: 2, commits: 3, num_pages: 7, rereads: 1, ..base.clone() },
+            // the first growing commit finds the file already long but the map short (an earlier remap failed)
+            Scenario { readers: 2, commits: 3, grow_at: 1, num_pages: 16, rereads: 1, failed_remap: true, ..base.clone() },
+            // commits that touch different buckets in turn; a multi-page value appended at the end of the file by
+            // one commit and deleted by the next; readers of different ages
+            Scenario { readers: 2, commits: 6, rereads: 2, varied: true, ..base.clone() },
+            Scenario { readers: 1, commits: 7, rereads: 3, varied: true, num_pages: 16, ..base.clone() },
             // three readers of different ages (the oldest may close first)
             Scenario { readers: 3, commits: 4, rereads: 1, ..base.clone() },
             // two writer threads extending one chain (a writer may queue behind an open writer)
@@ -851,6 +976,9 @@ pub fn scenarios(prop: &str, thorough: bool) -> Vec<Scenario> {
             v.push(Scenario { readers: 1, commits: 3, grow_at: 1, num_pages: 16, pagesize: 4096, ..base.clone() });
         }
         v.extend(scripted_scenarios(&base));
+        if crate::vio::Vio::get().is_none() {
+            v.retain(|s| !s.failed_remap); // (the ThreadSanitizer pass runs without the I/O shim)
+        }
         v
     } else {
         let b = Scenario { writers: 2, increments_per_writer: 2, readers: 1, rereads: 0, commits: 0, ..base.clone() };
@@ -860,10 +988,15 @@ pub fn scenarios(prop: &str, thorough: bool) -> Vec<Scenario> {
             Scenario { writers: 2, increments_per_writer: 2, readers: 2, grow_at: 1, num_pages: 8, ..b.clone() },
             // exactly full 7-page file at the first writer's begin (see C04)
             Scenario { writers: 2, increments_per_writer: 2, readers: 2, num_pages: 7, ..b.clone() },
+            // the growing increment maps the file again without extending it (an earlier remap failed, see C04)
+            Scenario { writers: 2, increments_per_writer: 2, readers: 2, grow_at: 1, num_pages: 8, failed_remap: true, ..b.clone() },
         ];
         if thorough {
             v.push(Scenario { writers: 3, increments_per_writer: 2, readers: 2, rereads: 1, ..b.clone() });
             v.push(Scenario { writers: 2, increments_per_writer: 3, readers: 1, grow_at: 2, num_pages: 8, pagesize: 4096, ..b.clone() });
+        }
+        if crate::vio::Vio::get().is_none() {
+            v.retain(|s| !s.failed_remap);
         }
         v
     }
@@ -1050,6 +1183,7 @@ pub fn run(ctx: &Ctx, prop: &str) -> Shard {
     shard.nontrivial = st.nontrivial.clone();
     shard.count("executions", st.executions);
     shard.count("executions_starting_on_an_exactly_full_file", st.exactly_full_starts);
+    shard.count("executions_starting_after_a_failed_remap(file_long,map_short)", st.failed_remap_starts);
     shard.count("scheduling_decisions", st.decisions);
     shard.count("preemptions", st.preemptions);
     shard.count("workers_found_blocked_on_a_lock", st.blocked_detected);
